@@ -5,7 +5,7 @@
    schema up to doc comments) is FALSE of the faithful model, as it is of the code: the theorem below refutes it with the
    four committed known findings as witnesses, each by computation.  Replayed on the implementation by the check, the same
    four texts are the KNOWN-FINDING lines. *)
-Require Import Bebop.front.Tok Bebop.front.Parse Bebop.front.Fmt Bebop.front.FmtFacts.
+Require Import Bebop.front.Tok Bebop.front.Parse Bebop.front.Fmt Bebop.front.FmtFacts Bebop.front.FmtSafe.
 
 Definition C16_refuted_statement : Prop :=
   ~ C16_statement /\
@@ -21,3 +21,9 @@ Proof.
   split; [exact typed_enum_rejected|]. split; [exact array2_rejected|]. split; [exact import_dropped|exact flags_differs].
 Qed.
 Print Assumptions C16_refuted.
+
+(* what does hold of it for EVERY input text, accepted or not: Format does not panic *)
+Definition C16_partial_statement : Prop := forall input, format input <> PPanic.
+Theorem C16_partial : C16_partial_statement.
+Proof. exact format_never_panics. Qed.
+Print Assumptions C16_partial.
